@@ -53,6 +53,10 @@ type actor struct {
 	// way out: wg.Done, deferred unlocks); it counts as running until it is gone from the runtime's goroutine list
 	finishing bool
 	adopted   bool
+	// base: this actor is an ALIAS - a stretch of the goroutine of actor base that the specification describes as an actor of
+	// its own (code that runs inline here and in a spawned goroutine elsewhere); delegated: base while its alias is active
+	base      *actor
+	delegated bool
 	goActor   bool
 }
 
@@ -85,6 +89,8 @@ type Controller struct {
 	Parks func(id ID, point string) bool
 	// Terminal: the adopted goroutine of actor id ends at this point.
 	Terminal func(id ID, point string) bool
+	// Alias: a registered goroutine (actor cur) reaches a point from which on it acts as another actor, until that actor's Terminal point.
+	Alias    func(cur ID, point string, a, b uint64) (ID, bool)
 	stackBuf []byte
 }
 
@@ -194,8 +200,31 @@ func (c *Controller) at(point string, a, b uint64, f map[string]any, mayPark boo
 		c.mu.Unlock()
 		return
 	}
+	if !act.adopted && act.base == nil && c.Alias != nil {
+		if id, ok := c.Alias(act.id, point, a, b); ok {
+			al := c.actors[id]
+			if al == nil {
+				al = &actor{id: id, resume: make(chan struct{}, 1)}
+				c.actors[id] = al
+			}
+			al.done, al.finishing, al.parked, al.gid, al.base = false, false, false, gid, act
+			act.delegated = true
+			c.byGoid[gid] = al
+			act = al
+		}
+	}
 	c.seq++
 	c.events = append(c.events, Event{Seq: c.seq, Actor: act.id, Point: point, A: a, B: b, F: f})
+	if act.base != nil && c.Terminal != nil && c.Terminal(act.id, point) {
+		// the inline stretch is over: the goroutine is its own actor again
+		act.done = true
+		act.base.delegated = false
+		c.byGoid[gid] = act.base
+		act.base = nil
+		c.cond.Broadcast()
+		c.mu.Unlock()
+		return
+	}
 	if act.adopted && c.Terminal != nil && c.Terminal(act.id, point) {
 		act.finishing = true
 		delete(c.byGoid, gid)
@@ -298,7 +327,7 @@ func (c *Controller) settle(deadline time.Time) (ok bool) {
 		c.mu.Lock()
 		var live []*actor
 		for _, a := range c.actors {
-			if !a.done && !a.parked {
+			if !a.done && !a.parked && !a.delegated {
 				live = append(live, a)
 			}
 		}
@@ -322,6 +351,18 @@ func (c *Controller) settle(deadline time.Time) (ok bool) {
 					}
 					c.mu.Unlock()
 				}
+				all = false
+				continue
+			}
+			if !found && a.adopted {
+				// a spawned goroutine without a terminal point that has returned
+				c.mu.Lock()
+				if !a.parked && !a.done {
+					a.done = true
+					delete(c.byGoid, a.gid)
+					c.cond.Broadcast()
+				}
+				c.mu.Unlock()
 				all = false
 				continue
 			}
@@ -469,6 +510,11 @@ func (c *Controller) WaitAllDone(d time.Duration) []ID {
 			if a.finishing {
 				if _, found := states[a.gid]; !found {
 					a.finishing, a.done = false, true
+				}
+			}
+			if a.adopted && !a.done && !a.parked {
+				if _, found := states[a.gid]; !found {
+					a.done = true
 				}
 			}
 			if a.parked && c.free {
